@@ -335,6 +335,33 @@ def run_scaling(spec, rec: Recorder):
         "EptMapResult.unpack": lambda d: _epm.EptMapResult.unpack(d),
         "public-api": lambda d: via_api(d, "sync", loop, blob),
     }
+    # the decoder itself on inputs far larger than one 64 KiB fragment (the property speaks of "any reply"): per-element
+    # copying of the remaining buffer is invisible at protocol sizes but quadratic here
+    big_tower = [(0x7F, b"", b"")] * 13000
+    for label, k_small, k_big in (("decoder-16x-vs-4x-65KB-towers", 4, 16),):
+        small, big = repm.enc_response([big_tower] * k_small, 0), repm.enc_response([big_tower] * k_big, 0)
+        def m_(data):
+            best = None
+            for _ in range(3):
+                t0 = time.thread_time_ns()
+                try:
+                    _epm.EptMapResult.unpack(data)
+                except Exception:
+                    pass
+                dt = time.thread_time_ns() - t0
+                best = dt if best is None else min(best, dt)
+            return best
+        tries = []
+        for _ in range(4):
+            r_ = m_(big) / max(1, m_(small))
+            tries.append(round(r_, 2))
+            if r_ <= 2.2 * (len(big) / len(small)):
+                break
+        rec.range(f"cpu_ratio_x100[{label}]", int(100 * min(tries)))
+        rec.count("scaling_probes")
+        if len(tries) == 4 and min(tries) > 2.2 * (len(big) / len(small)):
+            rec.violation("superlinear-work", f"EptMapResult.unpack: input grew {len(big) / len(small):.1f}x ({len(small)} -> {len(big)} bytes) but CPU time grew {tries}x in four independent measurements", {"kind": "scaling", "shape": label, "target": "EptMapResult.unpack"})
+        rec.case(("scaling", label), nontrivial=True)
     try:
         for sname, build in shapes.items():
             small, big = build(350), build(1400)
